@@ -112,7 +112,10 @@ func mixerCodeX(items []item) []byte {
 		p2(len(cl.data))
 		a.push1(0).push1(0)
 		a.op(0x73).op(cl.to.Bytes()...)
-		a.op(0x5a, 0xf1, 0x15) // GAS CALL ISZERO
+		// a fixed gas allowance per call: a precompile that returns an error burns all the gas it was given, so handing
+		// every call "all but 1/64th" would let two failing frames starve the rest of the transaction (gas is not modelled)
+		a.op(0x62, 0x0f, 0x42, 0x40) // PUSH3 1_000_000
+		a.op(0xf1, 0x15)             // CALL ISZERO
 		a.jumpTo("fail", true)
 	}
 	a.op(0x36).jumpTo("dispatch", true) // CALLDATASIZE != 0
@@ -494,7 +497,7 @@ func (r *run) mixed(nTx int) {
 		pre = r.mixState(token)
 		preSum, preEsc := r.mixBooks(token, g)
 		err := r.atomic(func(c sdk.Context) error {
-			res, err := r.w.S.App.EvmKeeper.CallEVM(c, r.users[0].Address(), &mixerAddr, big.NewInt(0), 8_000_000, nil, true)
+			res, err := r.w.S.App.EvmKeeper.CallEVM(c, r.users[0].Address(), &mixerAddr, big.NewInt(0), 40_000_000, nil, true)
 			if err != nil {
 				return err
 			}
